@@ -75,6 +75,10 @@ CHECKS = {
    text="Same specification and histories as C03. For every version compared with itself, and for every pair whose steps are all additive (new file, message, nested message, enum, enum value, field, oneof with new fields, reserved range, RPC, service) or cosmetic (comments everywhere, re-indentation, reordered top-level declarations), incl. chains compared against every earlier version, the real detector must report nothing under v1beta1 / v1 / v2 x FILE / PACKAGE / WIRE_JSON / WIRE; for every pair (also breaking ones, every value pair of every slot) clean(FILE) => clean(PACKAGE) => clean(WIRE_JSON) => clean(WIRE) must hold on the real results.",
    note="Compatible(p, c) is the specification's classification of slot transitions; it is never inferred from the code.",
    ref="4/C04"),
+ "C05": dict(engine="lint", technique="TLC on Lint.tla (plantings into a clean-by-construction workspace, exact Expected incl. the transcribed RPC signature rules) with every workspace replayed on bufcheck.Client.Lint through the real buf.yaml reader for 3 config versions x every category",
+   text="Lint.tla models a workspace as a valuation of 69 slots over a six-file skeleton that is clean by construction (wrong-case names of messages, nested messages, fields, nested fields, extensions incl. a nested one, oneofs, enums, nested enums, enum values, services, RPCs; zero value suffix and service suffix against the configured option; value prefix; missing / empty / trailing-only comments on every kind of declaration in // and /* */ style; unused, public and cyclic imports; a second file of the package in another directory, with another package, with differing or missing language options; a file without syntax, without package, with an unversioned / wrongly cased / misplaced package, with a camel-case file name; a required field, a first enum value that is not zero, allow_alias; streaming RPCs; the last file in path order; 8*P+7 files) and a signature block (request / response type of three RPCs x rpc_allow_* options) whose rules RPC_REQUEST_RESPONSE_UNIQUE and RPC_*_STANDARD_NAME are transcribed; TLC enumerates up to 2 plantings and the full product of the signature block (6.7k workspaces), checks TypeOK, CleanByConstruction, ExpectedRulesExist and BothAllowedEmptyIsFree, and emits the exact expected (rule, anchor) set; the harness renders each workspace with known line and column of every anchor, reads a generated buf.yaml (v1beta1, v1, v2 with top-level / module-level / options-only module-level lint section) with the real reader, lints, and requires the reported (rule, file, line, column) set to equal the expected one for every category and single-rule configuration.",
+   note="One skeleton; no planting for PROTOVALIDATE, STABLE_PACKAGE_NO_IMPORT_UNSTABLE, the deprecated IMPORT_NO_WEAK; the category tables are a static transcription (LintTables.tla). Quick replays all single plantings, the whole signature block and a seeded sample of 1500 pairs.",
+   ref="4/C05"),
 }
 
 NOT_APPLICABLE = {}
